@@ -317,6 +317,10 @@ func (s *Schema) validateContents(any map[string]interface{}) error {
 	if any == nil || s == nil {
 		return nil
 	}
+	if s.schema == nil {
+		// the no-op schema accepts everything
+		return nil
+	}
 
 	contents := schemaContents(any)
 
